@@ -17,6 +17,9 @@ package tiles
 // fetchProof (captures f, l): the proof builder is an external library (assumed not to panic)
 //@ func FeedLog$1
 //@   returns (p, err)
+//@   // the closure hands on ITS OWN context, the one of the feed cycle (not a longer-lived one from outside)
+//@   atcall[C19.ctx,C13.ctx] NewProofBuilder: $arg1 == ctx
+//@   atcall[C19.ctx,C13.ctx] ConsistencyProof: $arg2 == ctx
 //@   requires f != nil
 //@   modifies heap
 //@   ensures[C19.s] err != nil ==> p == nil
